@@ -180,7 +180,15 @@ def gen_cases(rng, tier):
     for n in range(1, 7):
         for _ in range(3):
             cases.append(_valid_case(rng, n=n, qcls='any', tcls='any'))
-    n_rand = 170 if tier == 'quick' else 3000
+    if tier == 'thorough':    # every ordered pair of the axis-aligned quaternions (exactly representable)
+        for qa in _AXIS_ALIGNED + _AXIS_UNIT:
+            for qb in _AXIS_ALIGNED + _AXIS_UNIT:
+                c = _valid_case(rng, n=2, qcls='axis', tcls=rng.choice(['int', 'axis', 'moderate']))
+                c['poses'][0]['r'] = [float(x) for x in qa]
+                c['poses'][1]['r'] = [float(x) for x in qb]
+                c['points'] = c['points'][:2]
+                cases.append(c)
+    n_rand = 170 if tier == 'quick' else 2000
     for _ in range(n_rand):
         cases.append(_valid_case(rng))
     n_bad = 30 if tier == 'quick' else 300
@@ -341,6 +349,13 @@ def run_impl(case, ctx):
     law['Z'] = Z.tolist() if Z is not None else None
     back = R.transform(CI, Y) if (CI is not None and Y is not None) else None
     law['back'] = back.tolist() if back is not None else None
+    # one pose alone, and the same pose with its quaternion normalised beforehand
+    i0 = case['inv_of'][0]
+    Y1 = R.transform(objs[i0], X)
+    q = case['poses'][i0]['r']
+    nq = math.sqrt(sum(v * v for v in q))
+    Yn = R.transform(R.mk({'r': [v / nq for v in q], 't': case['poses'][i0]['t']}), X)
+    law['single'] = {'i': i0, 'Y1': Y1.tolist() if Y1 is not None else None, 'Yn': Yn.tolist() if Yn is not None else None}
     return {'calls': R.calls, 'law': law, 'mutations': R.mutations}
 
 
@@ -417,7 +432,17 @@ def oracle(case, obs):
         dy = np.linalg.norm(Y[:, None, :] - Y[None, :, :], axis=2)
         if np.max(np.abs(dx - dy)) > TOL * 2 * scale:
             return 'point transform does not preserve distances'
-        # a single pose too (not only the composition)
+        sg = law['single']
+        if sg['Y1'] is None or sg['Yn'] is None:
+            return 'transform_points did not return'
+        p0 = poses[sg['i']]
+        Y1, Yn = np.array(sg['Y1']).reshape(-1, 3), np.array(sg['Yn']).reshape(-1, 3)
+        want = X @ _rotm(p0['r']).T + np.array(p0['t'])
+        s0 = float(np.max(np.abs(X))) + _tmax(p0)
+        if np.max(np.abs(Y1 - want)) > TOL * s0:
+            return 'point transform is not R(q/|q|) x + t'
+        if np.max(np.abs(Y1 - Yn)) > TOL * s0:
+            return 'a non-unit quaternion does not act as its normalisation'
     return None
 
 
